@@ -7400,3 +7400,96 @@ func bufferByteRange(c *Ctx) {
 		c.Fail("buffer-byte-range", c.P.Pos(fd.Decl.Pos()), "the range test of SETITEM on a Buffer is no longer `< -128 || > 255`: the specification accepts a byte read either way (signed or unsigned) and stores its low eight bits, so values of -128..-1 must not fault (and nothing outside -128..255 may pass)")
 	}
 }
+
+// verificationHasNoCaller (cond-context, C15): a verification context - the `verify` method of a contract-based
+// witness - is nobody's callee: its calling script hash is the zero hash, which the caller shortcut of CheckWitness
+// and the CalledByContract/CalledByGroup conditions all exclude. Loaded with the contract's own hash as the caller,
+// the contract would witness itself in any scope. Every LoadNEFMethod call of InitVerificationContext passes the zero
+// value for the caller parameter.
+func verificationHasNoCaller(c *Ctx) {
+	fd := c.P.Func("pkg/core", "Blockchain", "InitVerificationContext")
+	if fd == nil {
+		c.Lost("verification-has-no-caller.anchor", "Blockchain.InitVerificationContext not found")
+		return
+	}
+	f := c.P.NewFuncCFG(fd)
+	n := 0
+	for _, s := range f.CallSites("pkg/vm.(*VM).LoadNEFMethod") {
+		cf := calleeFunc(f.Info, s.call)
+		if cf == nil {
+			continue
+		}
+		sig := cf.Type().(*types.Signature)
+		for i := 0; i < sig.Params().Len() && i < len(s.call.Args); i++ {
+			if sig.Params().At(i).Name() != "caller" {
+				continue
+			}
+			n++
+			cl, ok := ast.Unparen(s.call.Args[i]).(*ast.CompositeLit)
+			if ok && len(cl.Elts) == 0 {
+				c.OK("verification-has-no-caller", c.P.Pos(s.call.Pos()), "the verification context is loaded with the zero hash as its caller")
+			} else {
+				c.Fail("verification-has-no-caller", c.P.Pos(s.call.Pos()), fmt.Sprintf("InitVerificationContext loads a contract's verify method with %s as the calling script hash: a verification context has no caller, and with a caller set the calling-hash shortcut of CheckWitness and the CalledByContract/CalledByGroup conditions hold for it - the contract witnesses itself whatever the scope", types.ExprString(s.call.Args[i])))
+			}
+		}
+	}
+	if n == 0 {
+		c.Lost("verification-has-no-caller.site", "no LoadNEFMethod call with a `caller` parameter in InitVerificationContext")
+	}
+}
+
+// overrideOutlivesCallout (cond-context, C15): Oracle.finish runs the callback with the signers of the *request*
+// transaction (ic.UseSigners(origTx.Signers)). CallFromNative only queues the callback; the native function returns
+// before the callback's first instruction. The override is therefore dropped in the callback's unload continuation
+// and on the error exits - never by a defer in the native function, which fires while the callback is still queued.
+func overrideOutlivesCallout(c *Ctx) {
+	pk := c.P.Pkg("pkg/core/native")
+	if pk == nil {
+		return
+	}
+	n := 0
+	for _, fd := range c.P.AllFuncDecls() {
+		if fd.Pkg != pk || fd.Decl.Body == nil {
+			continue
+		}
+		f := c.P.NewFuncCFG(fd)
+		if len(f.CallSites("pkg/core/interop/contract.CallFromNative")) == 0 {
+			continue
+		}
+		sets := f.CallSites("pkg/core/interop.(*Context).UseSigners")
+		if len(sets) == 0 {
+			continue
+		}
+		n++
+		key := "override-outlives-callout." + FuncKey(fd.Obj)
+		bad := token.NoPos
+		inspectNoLit(fd.Decl.Body, func(x ast.Node) bool {
+			if ds, ok := x.(*ast.DeferStmt); ok && f.calleeSym(ds.Call) == "pkg/core/interop.(*Context).UseSigners" {
+				bad = ds.Pos()
+			}
+			return true
+		})
+		// and the reset exists inside a function literal (the unload continuation)
+		inLit := false
+		ast.Inspect(fd.Decl.Body, func(x ast.Node) bool {
+			if fl, ok := x.(*ast.FuncLit); ok {
+				ast.Inspect(fl.Body, func(y ast.Node) bool {
+					if ce, ok := y.(*ast.CallExpr); ok && f.calleeSym(ce) == "pkg/core/interop.(*Context).UseSigners" {
+						inLit = true
+					}
+					return true
+				})
+			}
+			return true
+		})
+		switch {
+		case bad.IsValid():
+			c.Fail(key, c.P.Pos(bad), fmt.Sprintf("%s drops the signers override with a defer: CallFromNative only queues the callback, so the deferred reset fires before the callback's first instruction and CheckWitness inside the callback sees the response transaction's signers (scope None) instead of the request's", FuncKey(fd.Obj)))
+		case !inLit:
+			c.Fail(key, c.P.Pos(sets[0].call.Pos()), fmt.Sprintf("%s sets a signers override for a queued callback and never drops it in the callback's unload continuation", FuncKey(fd.Obj)))
+		default:
+			c.OK(key, c.P.Pos(sets[0].call.Pos()), "the signers override is dropped in the callback's unload continuation (and on error exits), not by a defer")
+		}
+	}
+	c.Floor("natives running a callback under a signers override", n, 1)
+}
